@@ -507,7 +507,7 @@ func (f *FrameV1) SetAppendixData(appendix []byte) error {
 	f.data = f.data[:cap(f.data)]
 
 	// Add appendix data.
-	var endIndex int
+	var oldPooledSlice []byte
 	switch {
 	case f.appendixIndex <= 0:
 		f.data = f.data[:origDataSize]
@@ -523,19 +523,53 @@ func (f *FrameV1) SetAppendixData(appendix []byte) error {
 		return errors.New("appendix data too big")
 
 	case len(appendix) > len(f.data)-f.appendixIndex:
-		f.data = f.data[:origDataSize]
-		return errors.New("not enough space for appendix")
-
-	default:
-		// Write new appendix.
-		endIndex = f.appendixIndex + len(appendix)
-		copy(f.data[f.appendixIndex:endIndex], appendix)
-
-		// Set end of frame.
-		f.data = f.data[:endIndex]
-
-		return nil
+		// The current buffer is too small: move the frame to a bigger one.
+		var err error
+		oldPooledSlice, err = f.moveToBiggerSlice(f.appendixIndex + len(appendix))
+		if err != nil {
+			f.data = f.data[:origDataSize]
+			return fmt.Errorf("not enough space for appendix: %w", err)
+		}
 	}
+
+	// Write new appendix.
+	endIndex := f.appendixIndex + len(appendix)
+	copy(f.data[f.appendixIndex:endIndex], appendix)
+
+	// Set end of frame.
+	f.data = f.data[:endIndex]
+
+	// Release the previous buffer only now: the appendix may have pointed into it.
+	if oldPooledSlice != nil {
+		f.builder.ReturnPooledSlice(oldPooledSlice)
+	}
+
+	return nil
+}
+
+// moveToBiggerSlice moves the frame (everything before the appendix) to a new
+// pooled slice that holds at least dataSize bytes of frame data.
+// It returns the previous pooled slice, which the caller must return to the pool.
+func (f *FrameV1) moveToBiggerSlice(dataSize int) (oldPooledSlice []byte, err error) {
+	if f.builder == nil {
+		return nil, errors.New("frame has no builder")
+	}
+	_, overhead := f.builder.FrameMargins()
+	offset := f.psDataOffset
+	if offset < 0 {
+		offset = 0
+	}
+	ps := f.builder.GetPooledSlice(offset + dataSize + overhead)
+	if ps == nil {
+		return nil, errors.New("frame too big")
+	}
+
+	copy(ps[offset:], f.data[:f.appendixIndex])
+	oldPooledSlice = f.pooledSlice
+	f.pooledSlice = ps
+	f.data = ps[offset:]
+	f.psDataOffset = offset
+	return oldPooledSlice, nil
 }
 
 // FrameDataWithMargins returns the whole frame, including the given offset and overhead.
